@@ -14,9 +14,10 @@ TARGETS = {
 
 CHECKS = {
     "C11": dict(
+        promote=True,   # thorough bounds cost seconds: used for the quick tier as well
         level="model_checking",
         runs=[dict(name="drbg", target="h_drbg", args=[], quick=[], thorough=[])],
-        deadline=dict(quick=90, thorough=600),
+        deadline=dict(quick=150, thorough=600),
         bounds=dict(
             quick="generator: crypto_entropy_read(len) for len in {0,1,31,32,33,65535,65536,65537,131073} x {entropy ok, entropy source fails "
                   "at its next call} from every reachable (instantiated, reseed_counter 1..257) state, search to the fixed point (request "
